@@ -38,6 +38,10 @@ type c02Plan struct {
 	// Fault: a transient storage fault on one airgapped machine: while it processes its operation of the given step,
 	// one entry of its database (the Key-th in key order) is unreadable; afterwards the entry is back.
 	Fault *c02Fault `json:"fault,omitempty"`
+	// Prior: the machines and nodes first complete another round with the same threshold in which the last participant
+	// does not take part (another group key; everybody else keeps the participant index). At the end the shares of BOTH
+	// rounds must lie on their own round's polynomial - what a machine holds for one round must not depend on the other.
+	Prior bool `json:"prior,omitempty"`
 }
 
 type c02Fault struct {
@@ -85,6 +89,7 @@ func c02Gen(rt *rapid.T) c02Plan {
 	} else if rapid.Bool().Draw(rt, "fault") {
 		p.Fault = &c02Fault{Machine: rapid.IntRange(0, p.N-1).Draw(rt, "faultMachine"), Step: rapid.SampledFrom(c02Steps).Draw(rt, "faultStep"), Key: rapid.IntRange(0, 40).Draw(rt, "faultKey")}
 	}
+	p.Prior = p.N >= 3 && p.T <= p.N-1 && rapid.IntRange(0, 2).Draw(rt, "prior") == 0
 	return p
 }
 
@@ -140,15 +145,16 @@ func deviantPoly(genuine []byte, mode int) ([]byte, error) {
 }
 
 type c02Obs struct {
-	Ready     []bool
-	States    []string
-	Round     string
-	DevPosted bool
-	DevLast   bool // the deviant announcement was the last key announcement on the board
-	FaultKey  string
-	FaultSeen string // what the operator saw from the machine during the fault
-	Err       error
-	Viol      *viol
+	Ready        []bool
+	States       []string
+	Round        string
+	DevPosted    bool
+	DevLast      bool // the deviant announcement was the last key announcement on the board
+	PriorChecked bool
+	FaultKey     string
+	FaultSeen    string // what the operator saw from the machine during the fault
+	Err          error
+	Viol         *viol
 }
 
 func c02Execute(p c02Plan, root string) (obs c02Obs) {
@@ -158,6 +164,34 @@ func c02Execute(p c02Plan, root string) (obs c02Obs) {
 		return
 	}
 	defer w.Close()
+	priorRound := ""
+	var priorMembers []int
+	if p.Prior && p.N >= 3 && p.T <= p.N-1 {
+		priorMembers = seq(p.N - 1)
+		priorRound, err = w.StartDKG(0, p.T, priorMembers)
+		for r := 0; err == nil && r < 80; r++ {
+			progress := w.PollAll()
+			for _, i := range priorMembers { // only the invited participants' operators act
+				k, e := w.AnswerAll(i)
+				if e != nil {
+					err = e
+					break
+				}
+				progress += k
+			}
+			if progress == 0 {
+				break
+			}
+		}
+		if err == nil && w.StateOf(0, priorRound) != "stage_signing_idle" {
+			err = fmt.Errorf("ended in %q", w.StateOf(0, priorRound))
+		}
+		if err != nil {
+			obs.Err = fmt.Errorf("earlier round: %w", err)
+			return
+		}
+		time.Sleep(time.Hour)
+	}
 	round, err := w.StartDKG(0, p.T, nil)
 	if err != nil {
 		obs.Err = err
@@ -244,8 +278,11 @@ func c02Execute(p c02Plan, root string) (obs c02Obs) {
 		}
 		for i := range w.Nodes {
 			ops, _ := w.Nodes[i].Operations()
-			if len(ops) > 0 {
-				acts = append(acts, act{kind: "answer", i: i, op: ops[0]})
+			for _, op := range ops {
+				if op.DKGIdentifier == round { // (an uninvited node keeps the invitation of the earlier round pending)
+					acts = append(acts, act{kind: "answer", i: i, op: op})
+					break
+				}
 			}
 		}
 		if p.DevHold && p.Deviant >= 0 && len(acts) > 1 {
@@ -380,6 +417,39 @@ func c02Execute(p c02Plan, root string) (obs c02Obs) {
 			return
 		}
 	}
+	if priorRound != "" {
+		var pref [][]byte
+		for _, i := range priorMembers {
+			kr, err := w.Keyring(i, priorRound)
+			if err != nil || kr == nil {
+				obs.Viol = violf("earlier-round-keyring-lost", "machine %d no longer holds a key share for the earlier round %s (%v)", i, priorRound[:8], err)
+				return
+			}
+			pb := polyBytes(kr.PubPoly)
+			if pref == nil {
+				pref = pb
+			} else if !polyEq(pref, pb) {
+				obs.Viol = violf("earlier-round-polynomial-differs", "after the second round, machines %d and %d hold different public polynomials for the earlier round", priorMembers[0], i)
+				return
+			}
+			if lhs := suite.G1().Point().Mul(kr.Share.V, nil); !lhs.Equal(kr.PubPoly.Eval(kr.Share.I).V) {
+				obs.Viol = violf("earlier-round-share-off-polynomial", "after the second round, machine %d's share of the earlier round does not lie on that round's polynomial", i)
+				return
+			}
+		}
+		if polyEq(pref, ref) {
+			obs.Viol = violf("rounds-share-polynomial", "the keyrings held for the earlier round (participants %v) and for the examined round carry the same public polynomial", priorMembers)
+			return
+		}
+		d, err := w.Dump(0, priorRound)
+		if err == nil && d.Payload.DKGProposalPayload != nil {
+			if nk, err := dkg.LoadPubPolyBLSKeyringFromBytes(vsuite, d.Payload.DKGProposalPayload.PubPolyBz); err != nil || !polyEq(polyBytes(nk.PubPoly), pref) {
+				obs.Viol = violf("earlier-round-polynomial-differs", "what the machines hold for the earlier round is not the polynomial node 0 retained for it (%v)", err)
+				return
+			}
+		}
+		obs.PriorChecked = true
+	}
 	// (e) any t shares sign consistently, t-1 cannot
 	msg := []byte(fmt.Sprintf("consistency probe %d/%d", p.N, p.T))
 	tasks, _ := json.Marshal([]requests.SigningTask{{MessageID: "probe", Payload: msg}})
@@ -467,6 +537,9 @@ func c02Run(t *testing.T, st *vstat.Stats, p c02Plan) *viol {
 			return violf("harness", "honest ceremony did not become signing-ready: %v", obs.States)
 		}
 		st.Class("honest:ready")
+		if obs.PriorChecked {
+			st.Class("honest:ready-with-an-earlier-round-on-the-same-machines")
+		}
 		if len(p.Tape) > 0 {
 			st.NonTrivial(fmt.Sprintf("h/%d/%d/%v", p.N, p.T, p.Tape))
 			st.SampleEvery(30, map[string]any{"n": p.N, "t": p.T, "tape_length": len(p.Tape), "outcome": "ready; all machines on one polynomial of t coefficients, shares on it, nodes retain it, t shares sign, t-1 do not"})
